@@ -444,6 +444,12 @@ struct tuple_element<I, ::cntgs::BasicContiguousElement<Allocator, Parameter...>
 {
 };
 
+template <std::size_t I, class Allocator, class... Parameter>
+struct tuple_element<I, const ::cntgs::BasicContiguousElement<Allocator, Parameter...>>
+    : std::tuple_element<I, ::cntgs::BasicContiguousReference<true, Parameter...>>
+{
+};
+
 template <class Allocator, class... Parameter>
 struct tuple_size<::cntgs::BasicContiguousElement<Allocator, Parameter...>>
     : std::integral_constant<std::size_t, sizeof...(Parameter)>
